@@ -2,9 +2,27 @@
 
 package statsd
 
-import "sync/atomic"
+import (
+	"context"
+	"sync/atomic"
+
+	"github.com/atlassian/gostatsd"
+	"github.com/atlassian/gostatsd/internal/lexer"
+)
 
 // VerifCounters exposes the parser's counters (read-only) to the verification harnesses.
 func (dp *DatagramParser) VerifCounters() (metrics, events, badLines uint64) {
 	return atomic.LoadUint64(&dp.metricsReceived), atomic.LoadUint64(&dp.eventsReceived), atomic.LoadUint64(&dp.badLines.Cur)
+}
+
+// VerifLineTags parses one datagram with handleDatagram (the parser's own per-datagram step, before the
+// metrics are merged into a map, which sorts their tags) and returns, per metric, its tags in order and its source.
+func (dp *DatagramParser) VerifLineTags(ip gostatsd.Source, msg []byte) (tags [][]string, sources []string) {
+	l := &lexer.Lexer{MetricPool: dp.metricPool}
+	ms, _, _ := dp.handleDatagram(context.Background(), l, 0, ip, msg)
+	for _, m := range ms {
+		tags = append(tags, append([]string{}, m.Tags...))
+		sources = append(sources, string(m.Source))
+	}
+	return
 }
